@@ -129,7 +129,7 @@ Definition alloc_lower (t : tlsf) (size align kind offset : Z) (tag : option Z) 
 
 (* ---------------------------------------------------------------- user operations *)
 
-Definition is_pow2 (a : Z) : bool := (1 <=? a) && (Z.land a (a - 1) =? 0).
+Definition is_pow2 (a : Z) : bool := (1 <=? a) && (a =? 2 ^ Z.log2 a).
 
 Inductive ures := UOk (slot : nat) (off : Z) | URefused | UError | UNoBlock | UPanic.
 
@@ -221,7 +221,11 @@ Fixpoint alloc_other (st : dstate) (cands : list (Z * Z)) (size align kind : Z) 
     end
   end.
 
-Inductive wres := WCont | WStop | WPanic.
+(* why a collecting pass panicked: the counters (incrementCounters), an unexpected answer of the
+   metadata or the block list (the must... helpers), the model's fuel, an unknown algorithm *)
+Inductive pwhy := PCounters | PMeta | PFuel | PAlgo.
+
+Inductive wres := WCont | WStop | WPanic (why : pwhy).
 
 (* the temporary is registered, the move appended, the counters incremented *)
 Definition commit_move (cs : cstate) (st' : dstate) (slot : nat) (e : uent) (bi : Z) (dstidx dstid off : Z)
@@ -231,7 +235,7 @@ Definition commit_move (cs : cstate) (st' : dstate) (slot : nat) (e : uent) (bi 
   let mv := mkMove slot tslot (u_blk e) bi (u_off e) dstid dstidx off (u_size e) in
   let '(p', r) := increment_counters (cs_pass cs) (u_size e) in
   (mkCS st2 (cs_moves cs ++ [mv]) p',
-   match r with IContinue => WCont | IStop => WStop | IPanic => WPanic end).
+   match r with IContinue => WCont | IStop => WStop | IPanic => WPanic PCounters end).
 
 (* Go: allocIfLowerOffset + incrementCounters, for the allocation at handle h of block (bi, id) *)
 Definition try_lower (cs : cstate) (bi id : Z) (t : tlsf) (h : Z) (slot : nat) (e : uent) : cstate * wres :=
@@ -239,7 +243,17 @@ Definition try_lower (cs : cstate) (bi id : Z) (t : tlsf) (h : Z) (slot : nat) (
   match alloc_lower t (u_size e) (u_align e) (u_kind e) h (tmp_tag st) with
   | AIOk t' off => commit_move cs (set_block st id t') slot e bi bi id off
   | AINo t' => (cs_set_st cs (set_block st id t'), WCont)
-  | AIPanic => (cs, WPanic)
+  | AIPanic => (cs, WPanic PMeta)
+  end.
+
+(* "if offset != 0 && MayHaveFreeBlock(...) { allocIfLowerOffset ... }" on the current block *)
+Definition lower_if (cs0 : cstate) (bi id : Z) (h : Z) (slot : nat) (e : uent) : cstate * wres :=
+  match find_id id (d_blocks (cs_st cs0)) with
+  | None => (cs0, WPanic PMeta)
+  | Some t =>
+    if negb (h =? 0) && may_have_free t (u_kind e) (u_size e)
+    then try_lower cs0 bi id t h slot e
+    else (cs0, WCont)
   end.
 
 (* the three suballocation handlers; ix = indexed block list *)
@@ -247,42 +261,34 @@ Definition handle_alloc (algo : Z) (ix : list (Z * Z)) (cs : cstate) (bi id : Z)
   : cstate * wres :=
   let st := cs_st cs in
   let cands := firstn (Z.to_nat bi) ix in
-  let lower (cs0 : cstate) : cstate * wres :=
-    match find_id id (d_blocks (cs_st cs0)) with
-    | None => (cs0, WPanic)
-    | Some t =>
-      if negb (h =? 0) && may_have_free t (u_kind e) (u_size e)
-      then try_lower cs0 bi id t h slot e
-      else (cs0, WCont)
-    end in
   if algo =? 0 then
     (* reallocSuballocHandler (single block) *)
-    lower cs
+    lower_if cs bi id h slot e
   else if algo =? 1 then
     (* defragFastSuballocHandler *)
     if bi =? 0 then (cs, WStop) else
     match alloc_other st cands (u_size e) (u_align e) (u_kind e) with
     | AOFound st' idx did off => commit_move cs st' slot e bi idx did off
     | AONone st' => (cs_set_st cs st', WCont)
-    | AOPanic st' => (cs_set_st cs st', WPanic)
+    | AOPanic st' => (cs_set_st cs st', WPanic PMeta)
     end
   else
     (* defragFullSuballocHandler *)
     if 0 <? bi then
       match alloc_other st cands (u_size e) (u_align e) (u_kind e) with
       | AOFound st' idx did off => commit_move cs st' slot e bi idx did off
-      | AONone st' => lower (cs_set_st cs st')
-      | AOPanic st' => (cs_set_st cs st', WPanic)
+      | AONone st' => lower_if (cs_set_st cs st') bi id h slot e
+      | AOPanic st' => (cs_set_st cs st', WPanic PMeta)
       end
-    else lower cs.
+    else lower_if cs bi id h slot e.
 
 (* one iteration of the walk: getMoveData, checkCounters, handler *)
 Definition visit (algo : Z) (ix : list (Z * Z)) (cs : cstate) (bi id : Z) (h : Z) : cstate * wres :=
   match find_id id (d_blocks (cs_st cs)) with
-  | None => (cs, WPanic)
+  | None => (cs, WPanic PMeta)
   | Some t =>
     match get_move_data (cs_st cs) t h with
-    | MDPanic => (cs, WPanic)
+    | MDPanic => (cs, WPanic PMeta)
     | MDImmobile => (cs, WCont)
     | MDMove slot e =>
       let '(p1, c) := check_counters (cs_pass cs) (u_size e) in
@@ -311,12 +317,12 @@ Definition list_begin (t : tlsf) : lbres :=
 
 Fixpoint walk_block (fuel : nat) (algo : Z) (ix : list (Z * Z)) (cs : cstate) (bi id : Z) (h : Z) : cstate * wres :=
   match fuel with
-  | O => (cs, WPanic)
+  | O => (cs, WPanic PFuel)
   | S f =>
     match visit algo ix cs bi id h with
     | (cs', WCont) =>
       match find_id id (d_blocks (cs_st cs')) with
-      | None => (cs', WPanic)
+      | None => (cs', WPanic PMeta)
       | Some t' =>
         match next_alloc t' h with
         | None => (cs', WCont)
@@ -333,10 +339,10 @@ Fixpoint walk_blocks (fuel : nat) (algo : Z) (ix : list (Z * Z)) (cs : cstate) (
   | [] => (cs, WCont)
   | (bi, id) :: rest =>
     match find_id id (d_blocks (cs_st cs)) with
-    | None => (cs, WPanic)
+    | None => (cs, WPanic PMeta)
     | Some t =>
       match list_begin t with
-      | LBPanic => (cs, WPanic)
+      | LBPanic => (cs, WPanic PMeta)
       | LBNone => walk_blocks fuel algo ix cs rest
       | LBSome h =>
         match walk_block fuel algo ix cs bi id h with
@@ -361,7 +367,7 @@ Definition collect_moves (st : dstate) (c : dctx) (p : pass) : cstate * wres :=
   if 1 <? n then
     if c_algo c =? 1 then walk_blocks fuel 1 ix cs0 srcs
     else if c_algo c =? 2 then walk_blocks fuel 2 ix cs0 srcs
-    else (cs0, WPanic)
+    else (cs0, WPanic PAlgo)
   else if (n =? 1) && negb (c_algo c =? 1) then walk_blocks fuel 0 ix cs0 srcs
   else (cs0, WCont).
 
@@ -583,7 +589,7 @@ Definition wstep (w : world) (o : wop) : world * wout :=
     | Some c =>
       let p := pass_init (lim (w_max_bytes w)) (lim (w_max_allocs w)) in
       match collect_moves (w_st w) c p with
-      | (cs, WPanic) => (kill w, OutKind RPanic)
+      | (cs, WPanic _) => (kill w, OutKind RPanic)
       | (cs, _) =>
         (mkW (cs_st cs) (Some (mkC (c_algo c) (cs_moves cs) (c_immovable c))) true (w_max_bytes w) (w_max_allocs w)
              (Some (cs_pass cs)) true (w_run w) false, OutPass (cs_moves cs))
